@@ -12,7 +12,7 @@ import numpy as np
 import z3
 
 from sx import inv as I
-from sx.arr import SArr
+from sx.arr import SArr, _as_sarr
 from sx.graph import SymDiGraph
 from sx.maps import LazyIdMap
 from sx.rt import (And, If, Implies, Not, Or, PathAbort, SBool, SInt, SReal, Unsupported, count, cur, int_shim,
@@ -75,8 +75,10 @@ class Env:
 
 
 def rp_stub(frame, spacing=None, intensity_image=None):
+    if isinstance(frame, np.ndarray):
+        frame = _as_sarr(frame)  # a frame that was realised at a C boundary
     if not isinstance(frame, SArr):
-        raise Unsupported("regionprops stub on a real array")
+        raise Unsupported("regionprops stub on " + type(frame).__name__)
     out = []
     nd = frame.c.ndim
     for lab in Env.labels:
@@ -88,8 +90,10 @@ def rp_stub(frame, spacing=None, intensity_image=None):
 
 def iou_stub(f1, f2):
     """contract of _compute_ious: (l1, l2, |l1 & l2| / |l1 | l2|) for every label pair with overlap"""
+    f1 = _as_sarr(f1) if isinstance(f1, np.ndarray) else f1
+    f2 = _as_sarr(f2) if isinstance(f2, np.ndarray) else f2
     if not isinstance(f1, SArr) or not isinstance(f2, SArr):
-        raise Unsupported("iou stub on a real array")
+        raise Unsupported("iou stub on " + type(f1).__name__)
     c1, c2 = f1.cells(), f2.cells()
     pres1 = [a for a in Env.labels if cur().decide(Or([x == a for x in c1]))]
     pres2 = [b for b in Env.labels if cur().decide(Or([y == b for y in c2]))]
@@ -221,6 +225,9 @@ def build(ctx, cfg):
     else:
         scale = [SReal(z3.Real(f"scale{d}")) for d in range(ndim)]
         ctx.add(And([s.e > 0 for s in scale]))
+        if scale_mode == "aniso":
+            # anisotropic, non-unit voxel size (every model then replays with such a scale)
+            ctx.add(And([s.e != 1 for s in scale[1:]] + [z3.Distinct([s.e for s in scale[1:]])]))
     p.spacing = None if scale is None else tuple(scale[1:])
     for s in range(N + 1):
         g.alive[s] = p.alive0[s] if s < N else False
